@@ -27,8 +27,8 @@ Proof.
   cbn [s_next s_reg s_gone s_en s_pend s_owed s_rel s_recv s_exc s3_next s3_reg s3_owed s3_exc upd_reg upd_owed] in *.
   destruct sx.
   { destruct e; try discriminate. injection H as <-. eexists; split; [reflexivity|]. constructor; reflexivity. }
-  destruct e as [a|h b|h m t x| |t|].
-  - destruct a as [h|h|h|e x|b| | |h]; try discriminate; cbn [inb existsb] in H; injection H as <-;
+  destruct e as [a|h b|h m t x| |t| |].
+  - destruct a as [h|h|h|e x|b| | |h|h|h|h h2]; try discriminate; cbn [inb existsb] in H; injection H as <-;
       (eexists; split; [reflexivity|]); constructor; reflexivity.
   - destruct (Bool.eqb b (inb h sr)); [|discriminate]. injection H as <-.
     eexists; split; [reflexivity|]. constructor; reflexivity.
@@ -37,6 +37,7 @@ Proof.
   - destruct srv; [discriminate|]. injection H as <-. eexists; split; [reflexivity|]. constructor; reflexivity.
   - destruct (owed_end t so) as [[l|]|]; try discriminate. injection H as <-.
     eexists; split; [reflexivity|]. constructor; reflexivity.
+  - discriminate.
   - discriminate.
 Qed.
 
